@@ -615,10 +615,17 @@ class Message:
         r = dns.renderer.Renderer(self.id, self.flags, max_size, origin)
         opt_reserve = self._compute_opt_reserve()
         tsig_reserve = self._compute_tsig_reserve()
-        if opt_reserve + tsig_reserve > max_size:
+        if self.opt and self.pad:
+            # Padding rounds the final size up to a multiple of the block size, so
+            # only the largest such multiple within max_size is usable.
+            pad_reserve = max_size % self.pad
+        else:
+            pad_reserve = 0
+        if opt_reserve + tsig_reserve + pad_reserve > max_size:
             raise dns.exception.TooBig
         r.reserve(opt_reserve)
         r.reserve(tsig_reserve)
+        r.reserve(pad_reserve)
         try:
             for rrset in self.question:
                 r.add_question(rrset.name, rrset.rdtype, rrset.rdclass)
